@@ -216,15 +216,13 @@ def reset_z(
         tableau, qubit_position, measurement_determinism
     )
     if probabilistic:
-        tableau.phase[probabilistic] = intended_state
         tableau.iphase[probabilistic] = 0
+    # measure, then flip the qubit if the outcome is not the intended state (also when the outcome was random:
+    # overwriting the sign of the new Z generator would discard the outcome and leave entangled qubits in the other branch)
+    if outcome == intended_state:
         return tableau
-
     else:
-        if outcome == intended_state:
-            return tableau
-        else:
-            return x_gate(tableau, qubit_position)
+        return x_gate(tableau, qubit_position)
 
 
 def reset_x(
